@@ -67,8 +67,10 @@ def pick_place(rng, ln=None):
     r = rng.random()
     if r < 0.4:
         return "e"
-    if r < 0.6:
+    if r < 0.57:
         return "s"
+    if r < 0.63:
+        return "g"          # straddling a multiple of 4 GiB
     return "a%d" % rng.randrange(0, 64)
 
 
